@@ -59,7 +59,7 @@ def _(self: SurveyX, condition: Fn(Elem, ret=bool)) -> List[Elem]:
 
 @contract("Survey._setup_xpath_dictionary")
 def _(self: SurveyX) -> None:
-    properties("C03", "C14", "C17")
+    properties("C03", "C02", "C14", "C17")
     no_native("needs survey-element objects: exercised through the e2e oracles")
     locals(xpaths=XPathMap)
     modifies_fields(self=("_xpath",))
